@@ -114,7 +114,7 @@ func H_C01_chain31() { hC01chain(2) }
 // (a split that sends five slots to one side, a chain of three buckets), then L
 // symbolic steps; map semantics after every step, full Items scan at the end.
 func hC01deep(L int) {
-	nk := 6
+	nk := 8 // 6 are filled in, 2 more can be inserted by the symbolic steps (re-using freed overflow buckets)
 	vlen := 2
 	opts := smallOpts(fs.Mem, 4, 10+8+vlen)
 	db, err := Open("c01d", opts)
@@ -130,7 +130,7 @@ func hC01deep(L int) {
 			vAssume(h != db.hash(r.keys[j]))
 		}
 	}
-	for i := 0; i < nk; i++ {
+	for i := 0; i < 6; i++ {
 		applyOp(db, r, 0, i, vlen, "C01.deep.fill")
 		checkReads(db, r, "C01.deep.fill")
 	}
